@@ -1,6 +1,7 @@
 \* adequacy witness: consumer scan forgetting the header offset must be refuted
 CONSTANTS
   Headers = {0, 1, 7, 512, 1019}
+  Tails = {"plain", "%", "%P", "%PD", "%PDF"}
   Kinds = {"classic", "xrefstm", "prev2", "objstm"}
   Consumers = {"startxref", "prev", "entry", "streamdata", "scan"}
   Dev <- D_scan
